@@ -50,31 +50,41 @@ Section Spec.
 Variable generate : path -> bytes -> option bytes.   (* generation + gofmt of one file alone; None = cannot be generated *)
 Variable keep : bool.                                (* orphans kept by flag *)
 
-(* contents demanded at q after a run on tree t *)
+(* contents demanded at q after a run on tree t.  A directory is never touched: a directory sitting where an
+   output file belongs stays (and makes that template ungeneratable, see [fails]); "orphaned _templ.go FILES are gone" *)
 Definition spec_content (t : fs) (q : path) : content :=
-  if outside_skipped q then
-    match template_of q with
-    | Some src =>
-        match t src with
-        | Some (File c _) => match generate src c with Some code => CFile code | None => content_of (t q) end
-        | Some Dir => content_of (t q)
-        | None => if keep then content_of (t q) else CAbsent
-        end
-    | None => content_of (t q)
-    end
-  else content_of (t q).
+  match t q with
+  | Some Dir => CDir
+  | _ =>
+    if outside_skipped q then
+      match template_of q with
+      | Some src =>
+          match t src with
+          | Some (File c _) => match generate src c with Some code => CFile code | None => content_of (t q) end
+          | Some Dir => content_of (t q)
+          | None => if keep then content_of (t q) else CAbsent
+          end
+      | None => content_of (t q)
+      end
+    else content_of (t q)
+  end.
 
 (* the only paths a run may touch at all (modification time included): _templ.go names outside skipped directories *)
 Definition may_touch (q : path) : bool :=
   outside_skipped q && match template_of q with Some _ => true | None => false end.
 
-(* src is a template outside skipped directories that cannot be generated *)
+(* src is a template outside skipped directories that cannot be generated: parsing, generation or gofmt fails,
+   or its output cannot be written because a directory occupies the sibling path *)
 Definition fails (t : fs) (src : path) : bool :=
   outside_skipped src
-  && match sibling_of src with Some _ => true | None => false end
-  && match t src with
-     | Some (File c _) => match generate src c with None => true | Some _ => false end
-     | _ => false
+  && match sibling_of src with
+     | Some g =>
+         match t src with
+         | Some (File c _) =>
+             match generate src c with None => true | Some _ => match t g with Some Dir => true | _ => false end end
+         | _ => false
+         end
+     | None => false
      end.
 
 (* the tree t' and failure status left by a run on the tree listed by l *)
